@@ -12,5 +12,6 @@ CONSTANTS
   Seeks <- SK0
   Pages <- None
   MaxFail = 0
+  StoreRemoves = TRUE
 INVARIANT ModelProps
 CHECK_DEADLOCK FALSE
